@@ -23,6 +23,7 @@ EXTENDS Integers, Sequences, FiniteSets, TLC, Json
 CONSTANTS Depth, EmitZero, DescUnits,
           HistVals,     \* value symbols recorded into the histogram: subset of DOMAIN ClassOfSym
           HistCounts,   \* how many samples one Touch of the histogram records
+          RecHows,      \* how several samples are recorded: subset of {"loop", "many"} (many = Histogram::record_many)
           GaugeOps      \* subset of {"set", "set0", "setneg0", "inc", "dec0"}
 
 Keys == <<[kind |-> "c", name |-> "reqs", labels |-> <<>>],
@@ -84,12 +85,13 @@ TouchG(i, gop) ==
     /\ hist' = Append(hist, <<"Touch", i, amount, gop>>)
     /\ UNCHANGED <<unit, hval>>
 
-\* cnt samples of the value sym are recorded
-TouchH(i, sym, cnt) ==
-    /\ Keys[i].kind = "h"
+\* cnt samples of the value sym are recorded: by cnt calls of record, or by one record_many(value, cnt) -
+\* which is cnt observations of the value all the same
+TouchH(i, sym, cnt, how) ==
+    /\ Keys[i].kind = "h" /\ (cnt = 1 => how = "loop")
     /\ reg' = reg \cup {i}
     /\ hval' = [hval EXCEPT ![i][ClassOfSym[sym]] = @ + cnt]
-    /\ hist' = Append(hist, <<"Touch", i, 0, sym, cnt>>)
+    /\ hist' = Append(hist, <<"Touch", i, 0, sym, cnt, how>>)
     /\ UNCHANGED <<unit, val>>
 
 \* a histogram item's value: the samples per value class (classes without samples are not listed)
@@ -108,7 +110,7 @@ Next ==
     \/ Len(hist) < Depth - 1 /\ \E n \in Names, u \in DescUnits : Describe(n, u)
     \/ Len(hist) < Depth - 1 /\ \E i \in KI : Touch(i)
     \/ Len(hist) < Depth - 1 /\ \E i \in KI, gop \in GaugeOps : TouchG(i, gop)
-    \/ Len(hist) < Depth - 1 /\ \E i \in KI, sym \in HistVals, cnt \in HistCounts : TouchH(i, sym, cnt)
+    \/ Len(hist) < Depth - 1 /\ \E i \in KI, sym \in HistVals, cnt \in HistCounts, how \in RecHows : TouchH(i, sym, cnt, how)
     \/ Readout
 
 Spec == Init /\ [][Next]_vars
